@@ -816,6 +816,47 @@ pub fn c14(tier: Tier) -> Vec<Case> {
             }
         }
     }
+    // the hooked rule tried again at the same offset (second choice arm, after a failed optional), with
+    // and without @memoize: a cached attempt must answer what the functions answered
+    let retry: Vec<Expr> = vec![
+        choice(vec![seq(vec![hole(), lit("c")]), seq(vec![hole(), lit("b")]), hole()]),
+        seq(vec![opt(seq(vec![hole(), lit("c"), lit("c")])), hole()]),
+        seq(vec![and(hole()), hole(), opt(field("z", "X"))]),
+        choice(vec![seq(vec![hole(), field("z", "X")]), seq(vec![opt(hole()), opt(lit("c"))])]),
+    ];
+    for ctxv in [false, true] {
+        for (kn, krules) in kinds(ctxv) {
+            let normal = matches!(krules[0].def, RuleDef::Normal(_));
+            for memo in [false, true] {
+                if memo && !normal {
+                    continue;
+                }
+                for c in &retry {
+                    for named in [true, false] {
+                        if named && matches!(c, Expr::Seq(v) if matches!(v[0], Expr::And(_))) {
+                            continue;
+                        }
+                        let h = if named { field("h", "H") } else { rref("H") };
+                        for root_noskip in [false, true] {
+                            let mut leaves = krules.clone();
+                            if memo {
+                                leaves[0].directives.push(Directive::Memoize);
+                            }
+                            leaves.extend(common.iter().cloned());
+                            let g = root_grammar(dirs(root_noskip, &[Directive::Export, Directive::Position]), fill(c, &h), &leaves);
+                            if !wf::well_formed(&g) {
+                                continue;
+                            }
+                            let fam = format!("hooks-retry/{kn}{}{}", if memo { "/memo" } else { "" }, if ctxv { "/ctx" } else { "" });
+                            if b.add(&fam, g, inputs.clone()) {
+                                b.last().user_ctx = ctxv;
+                            }
+                        }
+                    }
+                }
+            }
+        }
+    }
     b.cases
 }
 
@@ -852,6 +893,45 @@ pub fn c19(tier: Tier) -> Vec<Case> {
     for g in nested_grammars() {
         if b.add("trace/deep", g, InputSpec::List(nested_inputs(&[0, 1, 2, 7, 31, 62, 63, 64, 65, 66, 90, 130, 200]))) {
             b.last().note = "indented-all".into();
+        }
+    }
+    // long traces: tens of thousands of trace lines in one parse, with failing alternatives (one-line events),
+    // cache hits and left-recursive growth in between
+    {
+        let num = Rule::normal("Number", vec![Directive::String, Directive::NoSkipWs], plus(range('0', '9')));
+        let word = Rule::normal("Word", vec![Directive::String, Directive::NoSkipWs], plus(range('a', 'z')));
+        let item = |dirs: Vec<Directive>| Rule::normal("Item", dirs, choice(vec![over("Number"), over("Word")]));
+        let mut inputs: Vec<String> = Vec::new();
+        let mut counts = super::e1::long_counts(Tier::Quick);
+        counts.extend([454, 455, 908, 909, 910, 2047, 2048]);
+        if tier == Tier::Thorough {
+            counts.extend((1..=40).map(|k| k * 101));
+        }
+        for n in counts {
+            inputs.push("word ".repeat(n));
+            inputs.push("12 ".repeat(n));
+            inputs.push(format!("{}!", "w 1 ".repeat(n / 2)));
+        }
+        let list = |root_dirs: Vec<Directive>| Rule::normal("Root", root_dirs, seq(vec![star(field("items", "Item")), Expr::Eoi]));
+        let gs = vec![
+            Grammar { rules: vec![list(vec![Directive::Export]), item(vec![]), num.clone(), word.clone()] },
+            Grammar { rules: vec![list(vec![Directive::Export]), item(vec![Directive::Memoize]), num.clone(), word.clone()] },
+            Grammar {
+                rules: vec![
+                    Rule::normal("Root", vec![Directive::Export], seq(vec![field("l", "L"), Expr::Eoi])),
+                    Rule::normal("L", vec![Directive::Leftrec], choice(vec![seq(vec![bfield("head", "L"), field("last", "Item")]), field("last", "Item")])),
+                    item(vec![Directive::Memoize]),
+                    num.clone(),
+                    word.clone(),
+                ],
+            },
+        ];
+        for (gi, g) in gs.into_iter().enumerate() {
+            // the left-recursive grammar clones a tree that deepens with every item: quadratic, keep it shorter
+            let inputs: Vec<String> = if gi == 2 { inputs.iter().filter(|s| s.len() <= 6000).cloned().collect() } else { inputs.clone() };
+            if b.add("trace/long", g, InputSpec::List(inputs.clone())) {
+                b.last().note = "indented-all".into();
+            }
         }
     }
     for c in c07(Tier::Quick) {
@@ -966,6 +1046,49 @@ pub fn c20(tier: Tier) -> Vec<Case> {
             b.last().note = c.note.clone();
         }
         k2 += 1;
+    }
+    // memoized rules that are rarely hit, where a hit is visible (error detail; tree when the memoized rule
+    // sits on a left-recursive cycle): short probes before and after long hit-free inputs
+    {
+        let id = Rule::normal("Id", vec![Directive::String, Directive::NoSkipWs], plus(range('b', 'c')));
+        let g = Grammar {
+            rules: vec![
+                Rule::normal("Root", vec![Directive::Export], seq(vec![star(seq(vec![field("d", "Decl"), lit(";")])), Expr::Eoi])),
+                Rule::normal(
+                    "Decl",
+                    vec![],
+                    seq(vec![opt(seq(vec![field("outer", "T"), lit("<"), field("arg", "T"), lit(">")])), field("name", "T"), lit("("), lit(")")]),
+                ),
+                Rule::normal("T", vec![Directive::Memoize], field("name", "Id")),
+                id,
+            ],
+        };
+        let inputs: Vec<String> = vec![
+            "".into(),
+            "b();".into(),
+            "b<c(".into(),
+            "b<c>b();c<b(".into(),
+            "b<c>b();".repeat(120),
+            "b<c>c();".into(),
+            format!("{}b<c(", "c();".repeat(300)),
+        ];
+        b.add("pure/memo-rare-hit", g, InputSpec::List(inputs));
+        let g2 = Grammar {
+            rules: vec![
+                Rule::normal("Root", vec![Directive::Export], seq(vec![star(choice(vec![field("items", "E"), field("items", "Op"), field("items", "Junk")])), Expr::Eoi])),
+                Rule::normal("E", vec![Directive::Leftrec], choice(vec![over("Add"), over("Num")])),
+                Rule::normal("Add", vec![Directive::Memoize], seq(vec![bfield("left", "E"), lit("+"), field("right", "Num")])),
+                Rule::normal("Num", vec![Directive::String, Directive::NoSkipWs], plus(range('0', '9'))),
+                Rule::normal("Op", vec![Directive::String], lit("+")),
+                Rule::normal("Junk", vec![Directive::String], lit("#")),
+            ],
+        };
+        let inputs2: Vec<String> = vec!["1+2".into(), "1".into(), "#".repeat(400), "1+2+3#".into(), "+1".into(), format!("{}1+2", "#".repeat(300))];
+        // what a stale memo entry on a left-recursive cycle does is outside the reference model (and outside C05):
+        // this grammar is compared with the fresh-thread and fresh-process baselines only
+        if b.add("pure/memo-rare-hit", g2, InputSpec::List(inputs2)) {
+            b.last().note = "no-reference".into();
+        }
     }
     let _ = prune;
     b.cases
